@@ -18,6 +18,7 @@ const (
 	PFileReload
 	PFileReloadFail
 	PWatchLost
+	PInotifyOverflow
 	PUser0    // first index available to engines
 	NumProbes = 96
 )
